@@ -49,6 +49,26 @@ void janetc_emit(JanetCompiler *c, uint32_t instr) {
     janet_v_push(c->mapbuffer, c->current_mapping);
 }
 
+/* Patch the offset of a conditional jump (signed 16 bit offset in the high half) */
+void janetc_patchjump_s(JanetCompiler *c, int32_t label, int32_t target) {
+    int32_t offset = target - label;
+    if (offset < INT16_MIN || offset > INT16_MAX) {
+        janetc_cerror(c, "jump offset too large, function body is too long");
+        return;
+    }
+    c->buffer[label] |= ((uint32_t)(uint16_t) offset) << 16;
+}
+
+/* Patch the offset of an unconditional jump (signed 24 bit offset above the opcode) */
+void janetc_patchjump_l(JanetCompiler *c, int32_t label, int32_t target) {
+    int32_t offset = target - label;
+    if (offset < -0x800000 || offset > 0x7FFFFF) {
+        janetc_cerror(c, "jump offset too large, function body is too long");
+        return;
+    }
+    c->buffer[label] |= (((uint32_t) offset) & 0xFFFFFF) << 8;
+}
+
 /* Add a constant to the current scope. Return the index of the constant. */
 static int32_t janetc_const(JanetCompiler *c, Janet x) {
     JanetScope *scope = c->scope;
